@@ -26,6 +26,7 @@ package crl
 //@ func CRLRevocationChecker.Provision
 //@   constructor
 //@   props C15 C19 C20 C03
+//@   requires[C15,C19] usable_interval: crlConfig != nil && crlConfig.UpdateIntervalParsed > 0
 //@   requires c != nil && crlConfig != nil && crlConfig.CDPConfig != nil && logger != nil && norwlocks() && unheld(&workDirInUseMutex) && unheld(&crlUpdateMutex) && certsNonNil(crlConfig.TrustedSignatureCerts)
 //@   assigns L.held, crlrepository.Entry.CRLStore, crlrepository.Entry.Loaded, crlrepository.Entry.LastUpdateSignatureVerifyFailed, crlrepository.Entry.LastUpdateSignature, crlrepository.Entry.Chains, H.crlrepository.Repository.crlRepository, M.map[string]*crlrepository.Entry, crlstore.MapStore.Map, M.map[string][]uint8, crlstore.LevelDbStore.Db, H.crlloader.MultiSchemesCRLLoader, H.crlloader.URLLoader, H.crlloader.FileLoader, X.ldbhas, X.fs, X.net, X.retry, X.stream, X.spos, X.hacc, X.hkind, E.uint8, E.any, E.string, fresh:E.*core.CertificateChainEntry, fresh:E.core.CertificateChain, fresh:E.core.CertificateChainEntry, *c, M.map[string]int, G.crl.workDirsInUse, G.crl.lastCrlUpdateFinishTime, X.ticker
 //@   ensures[C03,C15] err == nil ==> checkerOK(c)
@@ -34,7 +35,7 @@ package crl
 //@   props C20 C13
 //@   requires c != nil && nolocks() && (c.crlRepository != nil ==> repoOK(c.crlRepository))
 //@   assigns L.held, crlrepository.Entry.CRLStore, crlrepository.Entry.Loaded, crlrepository.Entry.LastUpdateSignatureVerifyFailed, crlrepository.Entry.LastUpdateSignature, crlrepository.Entry.Chains, H.crlrepository.Repository.crlRepository, M.map[string]*crlrepository.Entry, X.fs, X.retry, X.ticker, M.map[string]int, G.crl.workDirsInUse
-//@   ensures[C20] stop_channel_closed: old(c.crlUpdateStop) != nil ==> called(close#1)
+//@   ensures[C20] stop_channel_closed: old(c.crlUpdateStop) != nil ==> called(close#1) && arg(close#1, 0) == old(c.crlUpdateStop)
 
 //@ func CRLRevocationChecker.addCrlUrlsFromConfig
 //@   props C15 C19
@@ -61,6 +62,7 @@ package crl
 //@   constructor
 //@   props C15 C19 C07
 //@   requires checkerOK(c)
+//@   requires[C15,C19] usable_interval: c.crlConfig.UpdateIntervalParsed > 0
 //@   assigns *c
 //@   ensures checkerOK(c)
 
